@@ -525,16 +525,21 @@ def run_history(seed, prop, model, rep, length):
                 r.git("symbolic-ref", "HEAD", "refs/heads/orphan%d" % step)
                 before_ck = real_ck(h.show()) if h.has_ck else None
                 args = ["checkpoint", "update"] + (["-p"] if rng.chance(1, 2) else [])
+                with_id = "-p" in args and step % 2 == 0
+                if with_id:
+                    # the id is given, the pending scan still needs HEAD: the update fails after its id
+                    # is known, and must not leave anything behind either
+                    args += ["--id", h.shas[-1]]
                 rc, j, out, err = r.mono(*args)
                 shown = real_ck(h.show()) if h.has_ck else None
                 showrc = h.show()
                 r.git("symbolic-ref", "HEAD", "refs/heads/main")
                 rep.evaluations += 1
                 rep.count("update_with_unborn_head")
-                h.log.append("HEAD -> unborn branch; checkpoint update" + (" -p" if "-p" in args else "") + "; HEAD -> main")
+                h.log.append("HEAD -> unborn branch; " + " ".join(args) + "; HEAD -> main")
                 if rc == 0:
-                    if fail("C19", "checkpoint update without --id succeeded although HEAD resolves to no commit",
-                            recorded=(j or {}).get("checkpoint")):
+                    if not with_id and fail("C19", "checkpoint update without --id succeeded although HEAD resolves to no commit",
+                                            recorded=(j or {}).get("checkpoint")):
                         return
                     # the stored checkpoint is whatever that update wrote: resynchronise by deleting it
                     r.mono("checkpoint", "delete")
@@ -728,6 +733,149 @@ def linked_config_case(seed, prop, rep):
         r.done()
 
 
+def large_pending_case(seed, prop, rep):
+    """pending files of several mebibytes (read in more than one piece by any reader): the checksum
+    `update --pending` records is the SHA-256 of the whole file, right after the update nothing is
+    changed, and a later edit anywhere in the file - in particular far behind its beginning - is
+    reported again"""
+    rng = scen.Rng(seed)
+    r = scen.Repo(TARGETS, git=True)
+    case = {"seed": seed, "prop": prop, "mode": "large_pending"}
+
+    def changes():
+        rc, j, out, err = r.mono("analyze", "--changes", timeout=180)
+        if rc != 0 or j is None:
+            return None, err
+        return sorted(c["path"] for c in j.get("changes", [])), err
+
+    def bad(p, kind, **kw):
+        if prop == p:
+            rep.oracle_fail(dict({"kind": kind, "case": case}, **kw))
+        else:
+            rep.count("violations_of_" + p)
+
+    try:
+        for t in TARGETS:
+            r.install(t["path"], "build")
+        sizes = [2 * 1024 * 1024 + 1, 3 * 1024 * 1024 + rng.range(0, 5000), 9 * 1024 * 1024 + rng.range(0, 5000), 2 * 1024 * 1024, 70000]
+        tracked = os.path.join("app", "tracked-large.bin")
+        with open(os.path.join(r.dir, tracked), "wb") as f:
+            f.write(b"t" * 1000)
+        r.commit_all("initial")
+        files = {}
+        for k, n in enumerate(sizes):
+            p = os.path.join(["app", "lib", "app2"][k % 3], "large-%d.bin" % k)
+            files[p] = n
+        files[tracked] = sizes[1] + 17
+        for p, n in files.items():
+            block = hashlib.sha256(("%d %s" % (seed, p)).encode()).digest() * 2048      # 64 KiB
+            with open(os.path.join(r.dir, p), "wb") as f:
+                f.write((block * (n // len(block) + 1))[:n])
+        rc, j, out, err = r.mono("checkpoint", "update", "--pending", timeout=180)
+        rep.evaluations += 1
+        rep.count("large_pending_cases")
+        if rc != 0 or j is None:
+            return bad("C19", "checkpoint update failed", rc=rc, stderr=err[-300:])
+        pend = (j["checkpoint"].get("pending") or {})
+        for p in files:
+            want = sha256_file(os.path.join(r.dir, p))
+            if pend.get(p) != want:
+                return bad("C02", "a pending entry does not carry the SHA-256 of its file", path=p, size=files[p], recorded=pend.get(p), sha256=want)
+        got, err = changes()
+        if got is None or got:
+            return bad("C07", "something is still changed right after checkpoint update --pending", reported=got, stderr=err[-300:])
+        # same size, one byte changed far behind the beginning; then an append
+        for step in ("edit_tail", "append"):
+            for p, n in files.items():
+                with open(os.path.join(r.dir, p), "r+b") as f:
+                    if step == "edit_tail":
+                        f.seek(n - 1 - rng.range(0, min(n - 1, 4000)))
+                        b = f.read(1)
+                        f.seek(-1, 1)
+                        f.write(bytes([b[0] ^ 0x55]))
+                    else:
+                        f.seek(0, 2)
+                        f.write(b"appended\n")
+            got, err = changes()
+            if got != sorted(files):
+                return bad("C02", "reported changes are not exactly the difference from the checkpoint", step=step,
+                           reported=got, expected=sorted(files), sizes=files, stderr=err[-300:])
+        rep.nontrivial_case(case)
+    finally:
+        r.done()
+
+
+def failed_update_case(seed, prop, rep):
+    """an update that fails after its id is known (the pending scan cannot be done) is not an update:
+    `show` still returns what the last successful update returned - or fails when there was none,
+    in which case analyze still reports checkpointed=false with every target"""
+    import socket
+    rng = scen.Rng(seed)
+    r = scen.Repo(TARGETS, git=True)
+    case = {"seed": seed, "prop": prop, "mode": "failed_update"}
+    allt = sorted(t["path"] for t in TARGETS)
+
+    def bad(kind, **kw):
+        if prop == "C19":
+            rep.oracle_fail(dict({"kind": kind, "case": case}, **kw))
+        else:
+            rep.count("violations_of_C19")
+
+    try:
+        for t in TARGETS:
+            r.install(t["path"], "build")
+        # 1. no commit yet: HEAD is unborn, the id is given, the pending scan needs HEAD
+        some_id = hashlib.sha1(b"%d" % seed).hexdigest()
+        rc, j, out, err = r.mono("checkpoint", "update", "--id", some_id, "--pending")
+        rep.evaluations += 1
+        rep.count("failed_update_unborn" if rc != 0 else "update_unborn_with_id_succeeded")
+        if rc != 0:
+            rc2, j2, _, _ = r.mono("checkpoint", "show")
+            if rc2 == 0:
+                return bad("a failed checkpoint update changed what checkpoint show returns", before=None, after=real_ck((j2 or {}).get("checkpoint")),
+                           detail="no update has succeeded yet")
+            rc3, j3, _, err3 = r.mono("analyze")
+            if rc3 != 0 or j3 is None or j3.get("checkpointed") is not False or sorted(j3.get("targets", [])) != allt:
+                return bad("without a checkpoint analyze does not report every target", rc=rc3, answer=j3, stderr=err3[-300:])
+        else:
+            r.mono("checkpoint", "delete")
+        # 2. a successful update, then one that cannot read a pending path (a tracked file replaced
+        #    by a unix socket: listed as modified, cannot be opened)
+        r.commit_all("initial")
+        with open(os.path.join(r.dir, "app", "extra.txt"), "w") as f:
+            f.write("pending %d\n" % seed)
+        rc, j, out, err = r.mono("checkpoint", "update", "--pending")
+        if rc != 0 or j is None:
+            return bad("checkpoint update failed", rc=rc, stderr=err[-300:])
+        returned = real_ck(j["checkpoint"])
+        head2 = None
+        victim = os.path.join(r.dir, "lib", "file.txt")
+        with open(os.path.join(r.dir, "app2", "file.txt"), "a") as f:
+            f.write("more\n")
+        head2 = r.commit_all("second")
+        os.remove(victim)
+        so = socket.socket(socket.AF_UNIX)
+        cwd = os.getcwd()
+        try:
+            os.chdir(os.path.dirname(victim))       # sun_path is short: bind by relative name
+            so.bind(os.path.basename(victim))
+        finally:
+            os.chdir(cwd)
+        rc, j, out, err = r.mono("checkpoint", "update", "--pending")
+        so.close()
+        rep.evaluations += 1
+        rep.count("failed_update_unreadable" if rc != 0 else "update_with_socket_succeeded")
+        if rc != 0:
+            rc2, j2, _, err2 = r.mono("checkpoint", "show")
+            shown = real_ck((j2 or {}).get("checkpoint")) if rc2 == 0 else None
+            if shown != returned:
+                return bad("a failed checkpoint update changed what checkpoint show returns", before=returned, after=shown,
+                           detail="the update failed while reading a pending path; HEAD had moved to %s" % head2)
+        rep.nontrivial_case(case)
+    finally:
+        r.done()
+
+
 def main():
     args = scen.parse_args(sys.argv)
     prop = args["prop"]
@@ -742,6 +890,10 @@ def main():
             special.append((linked_config_case, cc["seed"]))
         elif cc.get("mode") == "huge_pending":
             special.append((huge_pending_case, cc["seed"]))
+        elif cc.get("mode") == "failed_update":
+            special.append((failed_update_case, cc["seed"]))
+        elif cc.get("mode") == "large_pending":
+            special.append((large_pending_case, cc["seed"]))
         elif "seed" in cc:
             cases.append((cc["seed"], cc.get("length", 25)))
     rng = scen.Rng(args["seed"])
@@ -753,7 +905,10 @@ def main():
     scen.run_cases(lambda c: c[0](c[1], prop, rep), special, rep, 2)
     if args["budget"] > 0 and prop in ("C19", "C07", "C02"):
         scen.run_cases(lambda sd: huge_pending_case(sd, prop, rep), [rng.next() for _ in range(3 if args["tier"] == "thorough" else 1)], rep, 2)
+    if args["budget"] > 0 and prop in ("C02", "C07"):
+        scen.run_cases(lambda sd: large_pending_case(sd, prop, rep), [rng.next() for _ in range(3 if args["tier"] == "thorough" else 1)], rep, 2)
     if args["budget"] > 0 and prop == "C19":
+        scen.run_cases(lambda sd: failed_update_case(sd, prop, rep), [rng.next() for _ in range(6 if args["tier"] == "thorough" else 2)], rep, 2)
         scen.run_cases(lambda sd: linked_config_case(sd, prop, rep), [rng.next() for _ in range(6 if args["tier"] == "thorough" else 2)], rep, 2)
     scen.finish(args, rep, t0, model)
 
